@@ -889,6 +889,8 @@ class Exec:
             return self.arr_subscript(st, v, sl, e)
         if isinstance(v, StrV) and isinstance(sl, ast.Slice):
             return StrV("<slice of a string>")       # string content is opaque
+        if isinstance(v, ModV) and "__getitem__" in v.attrs:
+            return self.call(st, v.attrs["__getitem__"], [v, self.ev(sl, st)], {}, e)       # an external object whose model says what indexing it yields
         if isinstance(v, MaskedV):
             d = self.arr(st, v.arr)
             if d.rank == 2 and isinstance(sl, ast.Tuple) and len(sl.elts) == 2 and isinstance(sl.elts[0], ast.Slice) and not isinstance(sl.elts[1], ast.Slice):
@@ -1265,13 +1267,20 @@ class Exec:
             elif tgt.id in sl and isinstance(val, LRef) and not st.heap[val.sid].items:
                 from . import objects
                 cls = sl[tgt.id]
-                val = objects.new_symlist(self, st, cls if cls not in ("real", "int", "bool", "boolarr") else None, name=tgt.id,
-                                          elem_sort={"real": R, "int": I, "bool": B, "boolarr": z3.ArraySort(I, B)}.get(cls))
+                val = objects.new_symlist(self, st, cls if cls not in ("real", "int", "bool", "boolarr", "realarr") else None, name=tgt.id,
+                                          elem_sort={"real": R, "int": I, "bool": B, "boolarr": z3.ArraySort(I, B), "realarr": z3.ArraySort(I, R)}.get(cls))
             st.env[tgt.id] = val
             return
         if isinstance(tgt, (ast.Tuple, ast.List)):
             if isinstance(val, LRef):
                 val = Tup(st.heap[val.sid].items)
+            if isinstance(val, ARef) and self.arr(st, val).rank == 1:
+                # x, y = row: the elements of a 1-D array whose length is the number of targets
+                d = self.arr(st, val)
+                n1 = z3.simplify(d.shape[0])
+                if not (z3.is_int_value(n1) and n1.as_long() == len(tgt.elts)):
+                    self.safe(st, "unpack-elements", d.shape[0] == len(tgt.elts), node)
+                val = Tup(self.sel1(d, z3.IntVal(k)) for k in range(len(tgt.elts)))
             if isinstance(val, ARef) and self.arr(st, val).rank == 2:
                 # a, b, c = array2d: iteration over the first axis (the number of rows must be the number of targets)
                 d = self.arr(st, val)
